@@ -334,11 +334,11 @@ def check_cli_cached(tmp, case, pretext_text, cache):
     return [pre + m for m in msgs], nrec
 
 
-def rewrapped(case, width=None, eol=None):
-    return G.FastaCase(case.records, width or (80 if case.width != 80 else 60), eol or (b"\r\n" if case.eol == b"\n" else b"\n"), case.final_newline)
+def rewrapped(case):
+    return G.FastaCase(case.records, 80 if case.width != 80 else 60, b"\r\n" if case.eol == b"\n" else b"\n", case.final_newline)
 
 
-def earlier_contents(case, rng=None):
+def earlier_contents(case):
     """earlier contents of the same path, by kind; every one has at least the first record name in common"""
     recs = case.records
     first = recs[0]
@@ -395,9 +395,15 @@ def run(tier, seed, **opts):
         "direct: 3-record FASTA (12, 5, 1 residues, mixed-case IUPAC) in every layout (widths 1..5,60 x LF/CRLF x "
         "final newline) x every interval x strand +,-,? x buffer sizes x output line lengths as single-row scaffolds; "
         "gap-only scaffolds (length 0..3 buffers+2); random multi-row, multi-scaffold assemblies over random FASTA "
-        "files; end to end: pretext-to-asm on random FASTA + Pretext AGP.  One evaluation = one streamed assembly or "
-        "one CLI run; non-trivial = distinct (file, assembly, buffer, line length) with at least one non-empty record "
-        "(CLI: run exited 0 and wrote records)"
+        "files; end to end: pretext-to-asm on random FASTA + Pretext AGP; both routes again (FastaIndex.auto_load twice + "
+        "FastaStream over rows of the model and over the loaded assembly; the command) with .fai/.agp files of an indexing "
+        "run on the current or on earlier content of the path (re-wrapped, longer header, other sequences, fewer records) "
+        "lying beside the FASTA, each absent / older / same time stamp / newer (os.utime), except that two strictly "
+        "newer files are always those of the current content.  One evaluation = one streamed assembly, one CLI run or one "
+        "prepared directory loaded twice; non-trivial = distinct (file, assembly, buffer, line length[, earlier content, "
+        "state of the two index files]) with at least one non-empty record (CLI: run exited 0 and wrote records; loads: "
+        "at least one load delivered an index)",
+        max_samples=7,
     )
     line_lengths_all = (1, 2, 3, 5, 7, 60)
     all_states = list(cache_states(full=not quick))
@@ -536,37 +542,47 @@ def run(tier, seed, **opts):
             # ---- 5. the same command, index files of an earlier run lying beside the input
             earlier = earlier_contents(case)
             kinds = sorted(earlier)
-            if quick or k % 2:
-                fai, agp = CLI_CACHES[k % len(CLI_CACHES)]
-                kind = kinds[(k // len(CLI_CACHES)) % len(kinds)]
-                fai, agp = ([c, DELTA[st][(k // 7) % 2 if st == "older" else 0]] for c, st in (fai, agp))
-            else:
-                fai, agp = rng.choice(all_states)
-                kind = rng.choice(kinds)
-            cache = {"fasta_ns": FASTA_NS, "old": earlier[kind].spec(), "fai": fai, "agp": agp}
-            sub.mkdir()
-            try:
-                msgs, nrec = check_cli_cached(sub, case, ptxt, cache)
-            finally:
-                shutil.rmtree(sub)
-            inp = {"kind": "cli", "case": case.spec(), "pretext": ptxt, "cache": cache}
-            if msgs:
-                col.fail(msgs[0], inp)
-            col.case(("cli", case.key(), ptxt, kind, repr((fai, agp))), nontrivial=nrec > 0, sample=inp if k == 0 else None)
+            for j in range(2):
+                kk = k + j * (len(CLI_CACHES) // 2 + len(CLI_CACHES))
+                if quick or j == 0:
+                    fai, agp = CLI_CACHES[kk % len(CLI_CACHES)]
+                    kind = kinds[(kk // len(CLI_CACHES)) % len(kinds)]
+                    fai, agp = ([c, DELTA[st][(k // 7) % 2 if st == "older" else 0]] for c, st in (fai, agp))
+                else:
+                    fai, agp = rng.choice(all_states)
+                    kind = rng.choice(kinds)
+                cache = {"fasta_ns": FASTA_NS, "old": earlier[kind].spec(), "fai": fai, "agp": agp}
+                sub.mkdir()
+                try:
+                    msgs, nrec = check_cli_cached(sub, case, ptxt, cache)
+                finally:
+                    shutil.rmtree(sub)
+                inp = {"kind": "cli", "case": case.spec(), "pretext": ptxt, "cache": cache}
+                if msgs:
+                    col.fail(msgs[0], inp)
+                col.case(("cli", case.key(), ptxt, kind, repr((fai, agp))), nontrivial=nrec > 0, sample=inp if k == 0 and j == 0 else None)
         # ---- 6. FastaIndex.auto_load + FastaStream with index files in every state beside the FASTA
-        cases = [base_case(3, b"\n", True), base_case(60, b"\r\n", True), base_case(5, b"\n", False)]
-        cases += [G.random_case(rng, max_len=150) for _ in range(2 if quick else 150)]
+        base = [base_case(3, b"\n", True), base_case(60, b"\r\n", True), base_case(5, b"\n", False)]
+        # all kinds of earlier content x all states for the first file(s); one kind per state for the others
+        cases = [(c, "full" if i < (1 if quick else 3) else "rotate") for i, c in enumerate(base)]
+        cases += [(G.random_case(rng, max_len=150), "rotate" if quick else "sample") for _ in range(2 if quick else 150)]
         if not quick:
-            cases += [base_case(w, eol, fin) for w, eol, fin in G.layouts()]
+            cases += [(base_case(w, eol, fin), "rotate") for w, eol, fin in G.layouts()]
         sub = d / "cached"
         sub.mkdir()
         n = 0
-        for ci, case in enumerate(cases):
+        for ci, (case, mode) in enumerate(cases):
             earlier = earlier_contents(case)
+            chosen = set(rng.sample(range(len(all_states)), 60)) if mode == "sample" else None
             for ki, kind in enumerate(sorted(earlier)):
-                for fai, agp in all_states if not quick or ci < 3 else all_states[ci + ki :: 5]:
-                    if ki and "old" not in (fai and fai[0], agp and agp[0]):
-                        continue  # no file of the earlier content: the same scenario for every kind
+                for si, (fai, agp) in enumerate(all_states):
+                    if "old" not in (fai and fai[0], agp and agp[0]):
+                        if ki:
+                            continue  # no file of the earlier content: the same scenario for every kind
+                    elif mode != "full" and (si + ci) % len(earlier) != ki:
+                        continue
+                    if chosen is not None and si not in chosen:
+                        continue
                     if col.full:
                         break
                     n += 1
@@ -587,7 +603,11 @@ def run(tier, seed, **opts):
             + ("60 and one of 1,2,3,5,7" if quick else "1,2,3,5,7,60")
             + f"; gaps 0..3*buffer+2 for buffers 1..{8 if quick else 13}; {400 if quick else 10000} random files x 6 random assemblies "
             f"(<= 3 scaffolds x <= 5 rows); {n_cli} pretext-to-asm runs (2-4 records, contigs 40-400, one input with 250000 / 500001 N runs "
-            "and a 300017-residue contig to cross the command's fixed 250000 buffer)"
+            "and a 300017-residue contig to cross the command's fixed 250000 buffer); 2 further runs per input with left-over index "
+            f"files ({len(CLI_CACHES)} fixed (fai, agp) states" + ("" if quick else " and random ones") + f"); {n} prepared directories for auto_load: "
+            f"{len(all_states)} (fai, agp) states (time differences "
+            + ("-3600, -0.5, 0, +0.1 s" if quick else "-3600, -3, -0.5, -0.001, 0, +0.1, +2, +3600 s")
+            + f") x <= 4 kinds of earlier content over {len(cases)} files"
         ),
         exhaustive=False,
     )
